@@ -53,6 +53,9 @@ pub enum Step {
     CopyEdgeAttInto { dst: N, e: u8 },
     /// Emit `op` only if edge e exists.
     IfEdge { e: u8, then: Box<Step> },
+    /// Runtime path only: delete the `event -> kind` edge that ingress materialisation created for
+    /// this very intent (scope = event node; the edge id is derived from scope and intent kind).
+    DeleteKindEdge { kind: u8 },
     // --- dishonest / faulty steps (C14, C09) ---
     /// Write a node in another instance.
     CrossWarpUpsert { w: u8, n: N, ty: u8 },
@@ -121,6 +124,20 @@ pub fn nid(n: N, scope: &NodeId) -> NodeId {
         N::R(w) => ids::root_node(w),
         N::Scope => *scope,
     }
+}
+
+/// Kind node of an intent kind and the `event -> kind` edge id, as documented for runtime ingress
+/// materialisation: kind node id = intent-kind hash; edge id = H("runtime/ingress/intent_kind:" || event || kind node).
+pub fn kind_node_id(kind: u8) -> NodeId {
+    NodeId(*warp_core::make_intent_kind(&format!("verif/k{kind}")).as_hash())
+}
+
+pub fn kind_edge_id(event: &NodeId, kind: u8) -> EdgeId {
+    let mut h = blake3::Hasher::new();
+    h.update(b"runtime/ingress/intent_kind:");
+    h.update(&event.0);
+    h.update(&kind_node_id(kind).0);
+    EdgeId(*h.finalize().as_bytes())
 }
 
 pub fn val_att(v: &Val) -> AttachmentValue {
@@ -297,6 +314,7 @@ fn interp_step(prog: &Prog, step: &Step, r: &dyn Reader, w: WarpId, scope: &Node
                 interp_step(prog, then, r, w, scope, emit);
             }
         }
+        Step::DeleteKindEdge { kind } => emit(WarpOp::DeleteEdge { warp_id: w, from: *scope, edge_id: kind_edge_id(scope, *kind) }),
         Step::CrossWarpUpsert { w: ow, n, ty } => emit(WarpOp::UpsertNode {
             node: NodeKey { warp_id: ids::warp(*ow), local_id: nid(*n, scope) },
             record: NodeRecord { ty: ids::ty(*ty) },
@@ -396,6 +414,12 @@ fn step_accesses(step: &Step, w: WarpId, scope: &NodeId, prev_from: &dyn Fn(&Edg
         Step::IfEdge { e, then } => {
             out.push(Access::ERead(ids::edge(*e)));
             step_accesses(then, w, scope, prev_from, with_prev, out);
+        }
+        Step::DeleteKindEdge { kind } => {
+            let e = kind_edge_id(scope, *kind);
+            out.push(Access::EWrite(e));
+            out.push(Access::NWrite(*scope));
+            out.push(Access::AWrite(beta(w, e)));
         }
         // Dishonest steps declare nothing for their illegal part.
         Step::CrossWarpUpsert { .. } | Step::InstanceOp { .. } | Step::DeleteInstance { .. } | Step::Panic | Step::Noop => {}
